@@ -13,6 +13,10 @@ def RefsOk (s : SeqState) : Prop := ∀ p ∈ s.refs, ∀ r ∈ p.2, TrOk r
 def KeepsRefs (s : SeqState) (r : Raw) : Prop := RefsOk s → RefsOk r.st
 
 theorem kr_fail (s : SeqState) (e : Err) : KeepsRefs s (fail s e) := fun h => h
+theorem kr_orRollback {s : SeqState} {r : Raw} (h : KeepsRefs s r) : KeepsRefs s (r.orRollback s) := by
+  rcases Raw.orRollback_cases r s with e | ⟨e, he⟩
+  · rw [e]; exact h
+  · rw [he]; exact kr_fail _ _
 theorem kr_same {s : SeqState} {r : Raw} (h : r.st.refs = s.refs) : KeepsRefs s r := by
   intro hs; unfold RefsOk; rw [h]; exact hs
 
@@ -194,7 +198,7 @@ theorem stepRaw_refs (s : SeqState) (op : Op) : KeepsRefs s (stepRaw s op) := by
     all_goals first
       | exact kr_fail _ _
       | exact kr_store _ (fun h => addChannel_refs_ok _ h)
-      | exact kr_store _ (fun h => kr_targetCore _ _ _ (addChannel_refs_ok _ h))
+      | exact kr_store _ (kr_orRollback (fun h => kr_targetCore _ _ _ (addChannel_refs_ok _ h)))
   | configDetMap dmmId maxW sumW =>
     simp only [stepRaw]
     repeat' split
